@@ -186,7 +186,8 @@ def run_case(case):
                               "e.g. %s vs %s" % (c, c0, len(un_a), len(un_b), C.short([A[i][1] for i in un_a][:4]),
                                                  C.short([B[i][1] for i in un_b][:4]))})
                 break
-            hor_eq = [a for a in atA if not (patA[a[4]] & trajA) and a[0] == "eq"]
+            # (rows with an empty pattern are parametric components of vector constraints: not the horizon's business)
+            hor_eq = [a for a in atA if patA[a[4]] and not (patA[a[4]] & trajA) and a[0] == "eq"]
             if any(abs(a[1]) > 1e-7 * (1 + abs(c) + abs(c0)) for a in hor_eq):
                 res["violations"].append({"kind": "grid-rows-violated", "mech": "C11|horizon-only-equality-violated",
                                           "detail": "T=%g t0=%g: horizon/grid equality rows not satisfied at the "
